@@ -489,3 +489,55 @@ def apply_replace_term(engine, op: dict, spec_after: dict) -> None:
     term = S.build_term(sv["terms"][ti])
     term.update_reference(engine)
     v.terms[ti] = term
+
+
+# ---------------------------------------------------------------------------- generic disjointness of object graphs
+import collections as _collections
+import enum as _enum
+import types as _types
+
+_ATOMIC = (str, bytes, int, float, complex, bool, type(None), _enum.Enum, type, _types.FunctionType, _types.BuiltinFunctionType,
+           _types.MethodType, _types.ModuleType, np.ufunc, np.dtype, np.generic)
+
+
+def reachable_objects(engine) -> dict[int, str]:
+    """ids (with a path for diagnostics) of every mutable object reachable from an engine through attributes,
+    lists, dicts, sets, deques and tuples: fuzzylite component objects, containers and ndarrays."""
+    seen: dict[int, str] = {}
+    stack = [(engine, "engine")]
+    while stack:
+        o, path = stack.pop()
+        if isinstance(o, _ATOMIC) or id(o) in seen:
+            continue
+        if isinstance(o, np.ndarray):
+            seen[id(o)] = path
+            continue
+        if isinstance(o, (list, tuple, set, frozenset, _collections.deque)):
+            if not isinstance(o, (tuple, frozenset)):
+                seen[id(o)] = path
+            for i, x in enumerate(o):
+                stack.append((x, f"{path}[{i}]"))
+            continue
+        if isinstance(o, dict):
+            seen[id(o)] = path
+            for k, x in o.items():
+                stack.append((x, f"{path}[{k!r}]"))
+            continue
+        mod = getattr(type(o), "__module__", "") or ""
+        if mod.startswith("fuzzylite") and hasattr(o, "__dict__"):
+            seen[id(o)] = path
+            for k, x in vars(o).items():
+                if k == "_sim_fault":
+                    continue
+                stack.append((x, f"{path}.{k}"))
+    return seen
+
+
+def shared_objects(a, b) -> str:
+    """'' when the object graphs of two engines are disjoint, else the first shared object's paths."""
+    ra, rb = reachable_objects(a), reachable_objects(b)
+    common = set(ra) & set(rb)
+    if not common:
+        return ""
+    i = sorted(common, key=lambda x: ra[x])[0]
+    return f"{ra[i]} is the same object as {rb[i]}"
